@@ -1,51 +1,9 @@
-mod bcodec;
-mod engine;
-mod models;
-mod props;
-mod sim;
-mod world;
+use verif::{bcodec, engine, models, props, sim};
 
 use engine::Tier;
 
-/// Counting allocator: largest single request and total bytes requested since the last reset
-/// (used by the C14 decode tier; negligible cost elsewhere).
-pub mod alloc_count {
-    use std::alloc::{GlobalAlloc, Layout, System};
-    use std::sync::atomic::{AtomicUsize, Ordering::Relaxed};
-    pub static LARGEST: AtomicUsize = AtomicUsize::new(0);
-    pub static TOTAL: AtomicUsize = AtomicUsize::new(0);
-    pub struct Counting;
-    unsafe impl GlobalAlloc for Counting {
-        unsafe fn alloc(&self, l: Layout) -> *mut u8 {
-            LARGEST.fetch_max(l.size(), Relaxed);
-            TOTAL.fetch_add(l.size(), Relaxed);
-            System.alloc(l)
-        }
-        unsafe fn alloc_zeroed(&self, l: Layout) -> *mut u8 {
-            LARGEST.fetch_max(l.size(), Relaxed);
-            TOTAL.fetch_add(l.size(), Relaxed);
-            System.alloc_zeroed(l)
-        }
-        unsafe fn realloc(&self, p: *mut u8, l: Layout, new: usize) -> *mut u8 {
-            LARGEST.fetch_max(new, Relaxed);
-            TOTAL.fetch_add(new.saturating_sub(l.size()), Relaxed);
-            System.realloc(p, l, new)
-        }
-        unsafe fn dealloc(&self, p: *mut u8, l: Layout) {
-            System.dealloc(p, l)
-        }
-    }
-    pub fn reset() {
-        LARGEST.store(0, Relaxed);
-        TOTAL.store(0, Relaxed);
-    }
-    pub fn read() -> (usize, usize) {
-        (LARGEST.load(Relaxed), TOTAL.load(Relaxed))
-    }
-}
-
 #[global_allocator]
-static GLOBAL: alloc_count::Counting = alloc_count::Counting;
+static GLOBAL: verif::alloc_count::Counting = verif::alloc_count::Counting;
 
 fn usage() -> ! {
     eprintln!("usage: verif run <ID> [quick|thorough] | verif replay <ID> <file> | verif selftest");
